@@ -155,12 +155,17 @@ func (p *Parser) ParseFile(filename string, varPool *VarPool) (*MetaData, []*Bui
 				continue
 			}
 			baseName := pkgObj.Name
+			if imp.Name != nil && imp.Name.Name != "." && imp.Name.Name != "_" {
+				// Keep the name the file gives the package: a copied function literal may use the
+				// package's own name for a local variable (str "strings"; strings := ...).
+				baseName = imp.Name.Name
+			}
 
 			name := varPool.GetName(baseName)
 
 			metaData.Imports[path] = &Import{
 				Name:          name,
-				IsDefaultName: name == baseName,
+				IsDefaultName: name == pkgObj.Name,
 				IsUsed:        false, // Will be set to true only when actually used in code generation
 			}
 		}
